@@ -9,7 +9,7 @@ Obligations (each is a function whose postcondition CrossHair tries to refute ov
                     over concrete valid messages; whatever parsed must encode and validate without raising
   P.name            a segment name / MSH-9 / MSH-12 replaced by a fully symbolic short string
 """
-from vlib.chglue import PART_K, PART_N, TIER, THOROUGH, KNOWN_OFF, in_part, reset_defaults
+from vlib.chglue import PART_K, PART_N, TIER, THOROUGH, KNOWN_OFF, in_part, reset_defaults, concrete
 from hl7apy.parser import get_message_type, get_message_info, parse_message
 from hl7apy.exceptions import HL7apyException
 
@@ -21,8 +21,8 @@ MSGS = [
     'MSH|^~\\&#|A|B|||2020||ADT^A01^ADT_A01|1|P|2.7\rEVN||2020\rPID|1||X^^^H&I||S',
     'MSH|^~\\&|A|B|||2020||ORU^R01|1|P|2.3\rPID|||1\rOBX|1|NM|A||1.5',
 ]
-NMSG = len(MSGS) if THOROUGH else 1
-KINDS = 4 if THOROUGH else 2   # truncate, delete, duplicate, insert CR
+NMSG = len(MSGS)
+KINDS = 4   # truncate, delete, duplicate, insert CR
 
 # garbled names put in place of a segment name, MSH-9, MSH-12 (finite catalogue; the index is symbolic)
 NAMES = ['', ' ', 'P', 'PI', 'pid', 'PIDX', 'P|D', 'P^D', 'ZZ', 'Z_1', 'zz9', '123', '\xe9\xe9\xe9', '\x00\x00\x00', 'MSH',
@@ -149,7 +149,9 @@ def _ob_mut(mi: int, kind: int, p: int, strict: bool) -> bool:
     mi = _concretize(mi, NMSG)
     kind = _concretize(kind, KINDS)
     p = _concretize(p, len(MSGS[mi]))
-    return not _parse_all(_mutate(MSGS[mi], kind, p), 1 if strict else 2).startswith('crash')
+    level = 1 if strict else 2
+    with concrete():   # the path has fixed message, mutation kind, position and level: run the parser untraced
+        return not _parse_all(_mutate(MSGS[mi], kind, p), level).startswith('crash')
 
 
 def _ob_name(which: int, ni: int, strict: bool) -> bool:
@@ -167,7 +169,9 @@ def _ob_name(which: int, ni: int, strict: bool) -> bool:
         text = 'MSH|^~\\&|A|B|||2020||' + s + '|1|P|2.5\rPID|1'
     else:             # MSH-12
         text = 'MSH|^~\\&|A|B|||2020||ADT^A01^ADT_A01|1|P|' + s + '\rPID|1'
-    return not _parse_all(text, 1 if strict else 2).startswith('crash')
+    level = 1 if strict else 2
+    with concrete():
+        return not _parse_all(text, level).startswith('crash')
 
 
 SPEC = {
